@@ -189,6 +189,9 @@ def rule_P_TABLE(ctx, scopes, floor_sites):
         live = set("%s = %s" % (e, v) for e, v in sym.live_guards(bi))
         ok_ops = ops == ent["ops"]
         missing = [g for g in ent["need"] if g not in live]
+        for bd in ent.get("bounds", []):
+            if lower_bound(live, bd["expr"]) < bd["min"]:
+                missing.append("%s >= %d" % (bd["expr"], bd["min"]))
         ctx.ob("P-GUARD", key, ok_ops and not missing,
                ("operands changed: %s (reviewed: %s)" % (json.dumps(ops, ensure_ascii=False), json.dumps(ent["ops"], ensure_ascii=False)) if not ok_ops else "")
                + (" reviewed guard no longer forced: %s" % missing if missing else ""), site)
@@ -203,6 +206,33 @@ def rule_P_TABLE(ctx, scopes, floor_sites):
         ext |= cg.ext.get(p, set())
     ctx.extra["external_callees_assumed_total"] = sorted(x for x in ext if x not in MAY_PANIC and not any(x.startswith(y) for y in PANIC_FNS))[:200]
     return reach
+
+
+def lower_bound(live, expr):
+    """largest lower bound on `expr` implied by one of the forced guards"""
+    import re
+    lb = 0
+    for g_ in live:
+        m = re.match(r"^(Ne|Eq|Lt|Le|Ge|Gt)\((.*),(\d+)\) = (true|false)$", g_)
+        if m and m.group(2) == expr:
+            op, c, val = m.group(1), int(m.group(3)), m.group(4) == "true"
+            b = None
+            if (op == "Ne" and not val) or (op == "Eq" and val):
+                b = c
+            elif op == "Lt" and not val:
+                b = c
+            elif op == "Le" and not val:
+                b = c + 1
+            elif op == "Ge" and val:
+                b = c
+            elif op == "Gt" and val:
+                b = c + 1
+            if b is not None:
+                lb = max(lb, b)
+        m = re.match(r"^is_empty\((.*)\) = false$", g_)
+        if m and expr == "len(%s)" % m.group(1):
+            lb = max(lb, 1)
+    return lb
 
 
 def writes_head(ctx):
